@@ -293,3 +293,37 @@ TRUSTED = [
     "extraction: ExtrOcamlBasic only; ocaml/zconv.ml + ocaml/c09|c10/main.ml; harness/src/symcase.rs (ChunkReader)",
     "u64/usize counters (total_consumed, parser.lines) are unbounded Z in the model: they are bounded by the input length",
 ]
+
+
+# --------------------------------------------------------------------------- numeric boundaries, exhaustively
+TEMPLATES = [
+    "FILE {d} name", "INLINE_ORIGIN {d} name", "PUBLIC {h64} {h32} name", "PUBLIC m {h64} {h32} name",
+    "FUNC {h64} {h32} {h32} name", "FUNC m {h64} {h32} {h32} name",
+    "STACK WIN 4 {h64} {h32} {h32} {h32} {h32} {h32} {h32} {h32} 1 $eip 4 + ^ =",
+    "STACK WIN 0 {h64} {h32} {h32} {h32} {h32} {h32} {h32} {h32} 0 1",
+    "STACK CFI INIT {h64} {h32} .cfa: $rsp 8 +",
+    "FUNC 1 1 0 f\n{h64} {h32} {d} {d}",
+    "FUNC 1 1 0 f\nINLINE {d} {d} {d} {d} {h64} {h32}",
+    "FUNC 1 1 0 f\nINLINE 0 1 2 3 10 20 {h64} {h32}",
+    "FUNC 1 1 0 f\nINLINE_ORIGIN {d} g",
+    "STACK CFI INIT 1 1 r\nSTACK CFI {h64} .cfa: $rsp 16 +",
+]
+BOUND = {
+    "d": ["0", "4294967295", "4294967296", "9999999999", "0000000000", "00000000001", "12345678901", "99999999999", "", "f"],
+    "h32": ["0", "ffffffff", "FFFFFFFF", "100000000", "000000000", "fffffffff", "00000000", "", "g"],
+    "h64": ["0", "ffffffffffffffff", "10000000000000000", "00000000000000000", "fffffffffffffffff", "0000000000000000", "", "g"],
+}
+
+
+def boundary_files():
+    """every numeric field of every record kind at every boundary value, the other fields being 1"""
+    out = []
+    for t in TEMPLATES:
+        parts = re.split(r"(\{d\}|\{h32\}|\{h64\})", t)
+        slots = [i for i, p in enumerate(parts) if p.startswith("{")]
+        for si in slots:
+            kind = parts[si][1:-1]
+            for v in BOUND[kind]:
+                ps = [("1" if (p.startswith("{") and i != si) else (v if i == si else p)) for i, p in enumerate(parts)]
+                out.append(("MODULE Linux x86 ABC name\n" + "".join(ps) + "\nFILE 5 after\n").encode())
+    return out
